@@ -45,6 +45,10 @@ def run(ctx):
     ctx.assumptions += ["unit definitions are inputs (catalogue extracted from the tree)", "g++/clang++ verdicts on static_asserts",
                         "expressions multiplying two distinct unit types of identical dimension, magnitude and origin are excluded (documented limitation)"]
     cat, pre = unitcat.extract(ctx)
+    for idx, names in unitcat.base_dim_collisions(ctx):
+        ctx.violation({"kind": "base dimensions indistinguishable", "names": names},
+                      "the distinct base dimensions %s share the index %d: products and quotients mixing them cancel, so units of different dimension become "
+                      "interchangeable (e.g. a unit of %s per %s is treated as dimensionless)" % (" and ".join(names), idx, names[0], names[1]), detail=names)
     prep_specs(ctx, cat, pre, ["MC_Units.tla", "Gen_Units.tla", "Trace_Units.tla", "Trace_Units.cfg"])
     ids_a = ["Meters", "Feet", "Seconds", "Kelvins", "Celsius"] + ([] if ctx.tier == "quick" else ["Hertz", "Radians", "Degrees"])
     cfg = ctx.write("MC_Units.cfg", 'CONSTANTS Cat <- CatDef Pre <- PrefixDef Small0 = %s\n Ids = {%s}\nSPECIFICATION Spec\nINVARIANTS Exact RewriteSound Canonical OrderTotal\n' % ("TRUE" if ctx.tier == "quick" else "FALSE", ", ".join('"%s"' % i for i in ids_a)))
